@@ -74,9 +74,12 @@ FLOORS = {"quick": {"evaluations": 8000, "distinct_nontrivial": 6000,
                     "counters": {"compared": 8000, "lazy_meta_checked": 7500, "blocks_checked": 7500, "compared_getitem": 7000,
                                  "compared_vindex": 450, "compared_blocks": 250, "unknown_chunks_results": 250},
                     "sets": {"index_feature_tokens": 55}, "max_skipped_fraction": 0.2},
-          "thorough": {"evaluations": 150000, "distinct_nontrivial": 120000,
-                       "counters": {"compared": 150000, "lazy_meta_checked": 140000, "blocks_checked": 140000,
-                                    "compared_vindex": 5000, "compared_blocks": 2800, "unknown_chunks_results": 2800},
+          # measured on the repaired tree (thorough, 8 shards, 225 s): 375576 cases, 324645 distinct non-trivial, compared
+          # 373069, vindex 14473, blocks 7807, unknown-chunk results 8772
+          "thorough": {"evaluations": 170000, "distinct_nontrivial": 145000,
+                       "counters": {"compared": 165000, "lazy_meta_checked": 165000, "blocks_checked": 165000,
+                                    "compared_getitem": 155000, "compared_vindex": 6500, "compared_blocks": 3500,
+                                    "unknown_chunks_results": 3900},
                        "sets": {"index_feature_tokens": 80}, "max_skipped_fraction": 0.2}}
 EXHAUSTIVE_SPACE = {
     "quick": "all slices (start, stop in [-n-1, n+1] u {None}; step in {None, 1, -1, 2, -2, 3, -3}) of 1-d arrays of length n = 0..4 x all chunkings of the axis",
